@@ -107,3 +107,63 @@ M.loop(P_SYM + ':_find_symbol_reference', 0,
                              and s[sym_ref_pos:sym_ref_pos + 2] == '@['),
        modifies=dict(sym_ref_pos=Int, symbol_name='local', pos_after_symbol_name='local', rest='local'),
        decreases=lambda s, sym_ref_pos: len(s) - sym_ref_pos if sym_ref_pos != -1 else -1)
+
+
+# ------------------------------------------------------------------------------ symbol_syntax: fragments
+# The list of fragments of a string is described by measures (left folds, pyvc.api.Measure):
+#   rendered   -- the string the fragments denote when every symbol fragment is written back as  @[name]@
+#   well_formed -- every symbol fragment has a valid name, no constant fragment is empty
+#   separated  -- (no two constant fragments are adjacent, the last fragment is a constant)
+
+from pyvc.api import Measure, MListOf  # noqa: E402
+
+FRAG = Inst(symbol_syntax.Fragment, value=Str, is_symbol=Bool)
+FRAGMENTS = MListOf(FRAG)
+
+
+def render(f):
+    return render_ref(f.value) if f.is_symbol else f.value
+
+
+def _rendered_step(acc, f):
+    return acc + render(f)
+
+
+def _well_formed_step(ok, f):
+    return ok and (valid_name(f.value) if f.is_symbol else f.value != '')
+
+
+def _separated_step(st, f):
+    return (st[0] and not (st[1] and not f.is_symbol), not f.is_symbol)
+
+
+rendered = Measure('rendered', '', _rendered_step, Str)
+well_formed = Measure('well_formed', True, _well_formed_step, Bool)
+separated = Measure('separated', (True, False), _separated_step, FixedList(Bool, Bool, as_tuple=True))
+
+M.contract(P_SYM + ':_extract_fragment', params=dict(s=Str),
+           requires=lambda s: s != '',
+           returns=Union(FixedList(Str, FixedList(FRAG), as_tuple=True),
+                         FixedList(Str, FixedList(FRAG, FRAG), as_tuple=True)),
+           ensures={
+               'conservation': lambda s, result: rendered(result[1]) + result[0] == s,
+               'well-formed': lambda result: well_formed(result[1]),
+               'separated': lambda result: separated(result[1])[0],
+               'a-trailing-constant-ends-the-string': lambda result: (not separated(result[1])[1]) or result[0] == '',
+               'progress': lambda s, result: len(result[0]) < len(s),
+           },
+           raises_only=())
+
+M.contract(P_SYM + ':split', params=dict(s=Str), old=lambda s: s, returns=FRAGMENTS,
+           ensures={
+               'conservation': lambda s, result: rendered(result) == s,
+               'well-formed': lambda result: well_formed(result),
+               'no-adjacent-constants': lambda result: separated(result)[0],
+           },
+           raises_only=())
+M.loop(P_SYM + ':split', 0,
+       invariant=lambda s, ret_val, old:
+       rendered(ret_val) + s == old and well_formed(ret_val) and separated(ret_val)[0]
+       and ((not separated(ret_val)[1]) or s == ''),
+       modifies=dict(s=Str, fragments='local', ret_val=FRAGMENTS),
+       decreases=lambda s: len(s))
